@@ -13,7 +13,8 @@
     resized to.
  3. the WakeKickMap constructor (src/SM/WakeKickMap.cpp): the kick direction it hands to KickMap.
  4. KickMap::updateSM (src/SM/KickMap.cpp): bound of the loop over offsets, which `_offset` entry iteration i reads
-    and which `_hinfo` entry the inner loops write (all writes must use the same index expression).
+    and which `_hinfo` entry the inner loops write (all writes - also the several of a field-by-field store - must use the same
+    index expression, up to `ring` and up to `_ip` = `_it` when the KickMap constructor hands SourceMap the same parameter for both).
  5. ElectricField (src/PS/ElectricField.cpp): the extents `_wakepotential` is constructed with, the loop bounds and the
     subscripts of the read-back loop of wakePotential() that writes it, and that the function returns
     `_wakepotential.data()`.
@@ -359,7 +360,7 @@ def construct_args(n):
     return kids(ce[0])
 
 
-def sourcemap_xsize_index(nargs):
+def sourcemap_xsize_index(nargs, member="_xsize"):
     docs = ast_of("src/SM/SourceMap.cpp", "SourceMap::SourceMap")
     for d in docs:
         if d.get("kind") != "CXXConstructorDecl" or not any(c.get("kind") == "CompoundStmt" for c in kids(d)):
@@ -368,12 +369,12 @@ def sourcemap_xsize_index(nargs):
         if len(params) != nargs:
             continue
         ini = ctor_inits(d)
-        if "_xsize" in ini:
-            r = strip(ini["_xsize"])
+        if member in ini:
+            r = strip(ini[member])
             nm = (r.get("referencedDecl") or {}).get("name")
             if nm in params:
                 return params.index(nm)
-        raise TranslateError("SourceMap constructor with %d parameters does not initialise _xsize from a parameter" % nargs)
+        raise TranslateError("SourceMap constructor with %d parameters does not initialise %s from a parameter" % (nargs, member))
     raise TranslateError("no SourceMap constructor with %d parameters" % nargs)
 
 
@@ -403,6 +404,23 @@ def tr_kickmap_ctor():
     if fill is None or fill.get("kind") not in ("IntegerLiteral", "FloatingLiteral") or Fraction(fill["value"]) != 0:
         raise TranslateError("_offset is not resized with zeros")
     return out
+
+
+def kickmap_ip_is_it():
+    """True when the KickMap constructor hands the same parameter to SourceMap for `_ip` and `_it` (then `i*_ip+j1` and
+    `i*_it+j1` name the same table entry; family usm)"""
+    try:
+        d, body = method_body("src/SM/KickMap.cpp", "KickMap::KickMap", "KickMap")
+        ini = ctor_inits(d)
+        base = [k for k in ini if k.startswith("base:") and "SourceMap" in k]
+        if len(base) != 1:
+            return False
+        args = construct_args(ini[base[0]])
+        a, b = [strip(args[sourcemap_xsize_index(len(args), m)]) for m in ("_ip", "_it")]
+        na, nb_ = [(x.get("referencedDecl") or {}).get("name") if x.get("kind") == "DeclRefExpr" else None for x in (a, b)]
+        return na is not None and na == nb_
+    except TranslateError:
+        return False
 
 
 def tr_wakekick_ctor():
@@ -463,10 +481,12 @@ def tr_updatesm():
                 or zexpr(kids(fc)[1], env2) not in (("var", "it"), ("var", "ip")):
             raise TranslateError("updateSM: inner loop is not `j1 < _it`")
         w = ki.subscript_of(fk[4], "_hinfo")
-        if len(w) != 1:
+        if len(w) < 1:
             raise TranslateError("updateSM: inner loop writes _hinfo %d times" % len(w))
-        writes.append(zexpr(w[0], env2))
-    if not writes or any(poly(w) is None or poly(w) != poly(writes[0]) for w in writes):
+        writes += [zexpr(x, env2) for x in w]      # field-by-field stores subscript _hinfo more than once: all must agree
+    ren = (lambda e: ("var", "it") if e == ("var", "ip") else tuple(ren(x) if isinstance(x, tuple) else x for x in e)) \
+        if kickmap_ip_is_it() else (lambda e: e)
+    if not writes or any(poly(ren(w)) is None or poly(ren(w)) != poly(ren(writes[0])) for w in writes):
         raise TranslateError("updateSM: the inner loops do not all write the same _hinfo entry")
     return bound, reads[0], writes[0]
 
